@@ -44,7 +44,7 @@ MANIFEST = {
 EXPLANATION = MANIFEST["level_text"]
 TRUSTED = [
     "pyvc VC generator (exception objects as records; str()/type().__name__/getattr on them as in CPython)",
-    "z3 5.1.0 / cvc5 1.0.3",
+    "z3 5.1.0 / cvc5 1.4.0",
     "CPython traceback.TracebackException.from_exception returns an object whose format() yields text and whose stack lists frames; json.loads(json.dumps(d)) == d for the JSON-able dict built by Message.from_exception",
     "pyarrow: KeyValueMetadata is a bytes->bytes map; the IPC stream delivers the batch and its metadata unchanged",
     "falcon: resp.set_header / resp.status are what the client receives",
